@@ -97,6 +97,46 @@ fn poll_file(
     })
 }
 
+/// Several streams of ONE entity polled round-robin (what a multipart response over a file, or
+/// two responses sharing an `Arc`ed entity, do): each must deliver exactly its own range.
+fn poll_interleaved(rt: &tokio::runtime::Runtime, crf: &Arc<Crf>, ranges: &[(u64, u64)]) -> Result<(), String> {
+    let crf = crf.clone();
+    let ranges = ranges.to_vec();
+    rt.block_on(async move {
+        tokio::spawn(async move {
+            std::panic::catch_unwind(std::panic::AssertUnwindSafe(|| {
+                let waker = noop_waker();
+                let mut cx = Context::from_waker(&waker);
+                let mut streams: Vec<_> = ranges.iter().map(|&(a, b)| Some(crf.get_range(a..b))).collect();
+                let mut got: Vec<Vec<u8>> = vec![vec![]; ranges.len()];
+                for _round in 0..16 {
+                    for (i, slot) in streams.iter_mut().enumerate() {
+                        let Some(s) = slot else { continue };
+                        match s.as_mut().poll_next(&mut cx) {
+                            Poll::Ready(Some(Ok(d))) => got[i].extend_from_slice(&d),
+                            Poll::Ready(Some(Err(e))) => return Err(format!("stream {} failed: {}", i, e)),
+                            Poll::Ready(None) => *slot = None,
+                            Poll::Pending => return Err(format!("stream {} pending", i)),
+                        }
+                    }
+                }
+                for (i, &(a, b)) in ranges.iter().enumerate() {
+                    if streams[i].is_some() {
+                        return Err(format!("stream {} ({}..{}) did not end", i, a, b));
+                    }
+                    if got[i] != content(a..b) {
+                        return Err(format!("stream {} ({}..{}) delivered other bytes than its range", i, a, b));
+                    }
+                }
+                Ok(())
+            }))
+            .unwrap_or_else(|_| Err("panic".into()))
+        })
+        .await
+        .unwrap()
+    })
+}
+
 fn show_fouts(o: &[FOut]) -> String {
     o.iter()
         .map(|x| match x {
@@ -254,6 +294,24 @@ pub fn c18(em: &mut Emit, thorough: bool, _seed: u64) {
                 write_file(&path, size);
             }
         }
+        // --- several streams of one entity, interleaved
+        if size >= 2 {
+            let crf = Arc::new(Crf::new(std::fs::File::open(&path).unwrap(), HeaderMap::new()).unwrap());
+            let m = size / 2;
+            for ranges in [
+                vec![(0, size), (0, size)],
+                vec![(m, size), (0, m)],
+                vec![(size - 1, size), (0, 1), (m, m + 1)],
+                vec![(0, size.min(65537)), (size.saturating_sub(65537), size), (1, size)],
+            ] {
+                let r = poll_interleaved(&rt, &crf, &ranges);
+                em.pred_only(
+                    &format!("file of {} bytes, streams {:?} of one entity polled round-robin", size, ranges),
+                    &match r { Ok(()) => "ok".to_string(), Err(e) => format!("FAIL:{}", e) },
+                    "interleaved",
+                );
+            }
+        }
         // --- ETag / metadata
         let f1 = Crf::new(std::fs::File::open(&path).unwrap(), HeaderMap::new()).unwrap();
         let f2 = Crf::new(std::fs::File::open(&path).unwrap(), HeaderMap::new()).unwrap();
@@ -273,6 +331,36 @@ pub fn c18(em: &mut Emit, thorough: bool, _seed: u64) {
             &pred(ok, || why.clone()),
             "etag:base",
         );
+        // operations that leave inode, length, modification time and bytes alone (they only move
+        // the inode change time): every instance still reports the same tag
+        {
+            use std::os::unix::fs::PermissionsExt;
+            let link = tmp.path().join(format!("link{}", size));
+            let moved = tmp.path().join(format!("moved{}", size));
+            let ops: [(&str, Box<dyn Fn()>); 4] = [
+                ("hard_link", Box::new(|| std::fs::hard_link(&path, &link).unwrap())),
+                ("unlink of the other name", Box::new(|| std::fs::remove_file(&link).unwrap())),
+                ("chmod", Box::new(|| std::fs::set_permissions(&path, std::fs::Permissions::from_mode(0o640)).unwrap())),
+                ("rename away and back", Box::new(|| {
+                    std::fs::rename(&path, &moved).unwrap();
+                    std::fs::rename(&moved, &path).unwrap();
+                })),
+            ];
+            for (what, op) in &ops {
+                std::thread::sleep(Duration::from_millis(12));
+                op();
+                let g = Crf::new(std::fs::File::open(&path).unwrap(), HeaderMap::new()).unwrap();
+                let m = std::fs::metadata(&path).unwrap();
+                let (ino, len, s, n) = etag_fields(&m);
+                let t = g.etag().unwrap().as_bytes().to_vec();
+                em.case(
+                    &format!("ETAG ino={} len={} secs={} nanos={}", ino, len, s, n),
+                    &hex(&t),
+                    &pred(t == t1, || format!("etag of an unmodified file changed after {}", what)),
+                    "etag:attr-only",
+                );
+            }
+        }
         // change mtime, then length, then identity: the tag must change every time
         let f = std::fs::OpenOptions::new().write(true).open(&path).unwrap();
         for (what, nsecs, nnanos) in [("mtime-sec", secs + 1, nanos), ("mtime-nsec", secs + 1, 1), ("mtime-nsec2", secs + 1, 999_999_999)] {
